@@ -199,7 +199,9 @@ func checkC16(c *runCtx) {
 	// ------------------------------------------------------------ A: constructed candidates
 	types := []string{"host", "srflx", "prflx", "relay"}
 	nets := []string{"udp", "tcp"}
-	addrs := []string{"1.2.3.4", "::ffff:1.2.3.4", "2001:db8::1", "fe80::1", "x.local"}
+	// the last three are valid spellings that are not the canonical text of their address (upper case, uncompressed,
+	// IPv4-mapped in hex): the candidate keeps the caller's spelling and the round trip must keep it too
+	addrs := []string{"1.2.3.4", "::ffff:1.2.3.4", "2001:db8::1", "fe80::1", "x.local", "2001:DB8::1", "2001:db8:0:0:0:0:0:1", "::ffff:c000:0201"}
 	ports := []int{0, 1, 65535}
 	comps := []uint16{0, 1, 2, 256, 65535}
 	prios := []uint32{0, 1, 1<<31 - 1, 1<<32 - 1}
